@@ -96,6 +96,14 @@ Definition xdisciplined (h : list xop) : bool :=
 Definition xfams_ok (h : list xop) : bool :=
   forallb (fun x => match x with XOp o => PipeCompose.op_fams_ok o | XOctets _ _ => true end) h.
 
+(* the per-peer header of a message, if its type has one *)
+Definition msg_pph (m : BmpWire.wmsg) : option BmpWire.wpph :=
+  match m with
+  | BmpWire.WRoute p _ | BmpWire.WStats p _ _ | BmpWire.WPeerDown p _ _ | BmpWire.WPeerUp p _ _ _ _ _ _
+  | BmpWire.WMirror p _ => Some p
+  | BmpWire.WInit _ | BmpWire.WTerm _ => None
+  end.
+
 (* ---------- histories of wire MESSAGES, and their encoding ---------- *)
 Inductive mop :=
 | MOp (o : wop)
